@@ -67,8 +67,9 @@ def run(tier="quick", seed=1, replay=None):
             raise vf.Inconclusive("decode harness failed:\n" + out[-3000:])
         keep = sorted(os.listdir(files), key=lambda x: int(x.split(".")[0]))
         step = max(1, len(keep) // (250 if quick else 2500))
+        always = {str(c["id"]) for c in cases if any(m["f"] == "kv3_type" for m in c.get("muts", [])) and len(c.get("muts", [])) == 1}
         for i, fn in enumerate(keep):
-            if i % step:
+            if i % step and fn.split(".")[0] not in always:
                 os.remove(os.path.join(files, fn))
         rc, out2 = vf.go_test2("./server", "^TestVFApiReplay$", wd, vf.harness_overlay(["server"]),
                                env=dict(VF_FILES=files, VF_OUT=t2), timeout=3000)
